@@ -375,7 +375,7 @@ def auditWorld : World Nat Nat Unit Unit Unit :=
 
 /-- `gen_run_main`'s hypothesis set is satisfiable EXCEPT for `hr`, which stays a hypothesis here too: `Py.round (Py.fmul vp n)` is a
 `Float` computation (`Float.floor`, `Float.toUInt64`, `*`) that the kernel cannot evaluate, so for no concrete `vp` can `hr` be
-proved inside Lean (`decide`/`rfl` get stuck; `native_decide` is forbidden).  All generated-code theorems of C15 that mention `hr`
+proved inside Lean (`decide` and `rfl` get stuck and compiled evaluation is not allowed here).  All generated-code theorems of C15 that mention `hr`
 (`gen_split_sizes_eq`, `gen_fit_dataflow_eq`, `gen_rows_aligned`, `gen_run_main`) are therefore conditional on a fact only the driver
 can observe at run time.  Given `hr` for `n = 7`, `r = 2`, the rest is inhabited (`Valid` with a reversing permutation, `b = 2`): -/
 theorem gen_run_main_audit_instance (vp : Float) (hr : Py.round (Py.fmul vp ((7 : Nat) : Int)) = ((2 : Nat) : Int)) :
